@@ -47,6 +47,7 @@ func NewExecCtx(errs ZogIssues, fmter IssueFmtFunc) *ExecCtx {
 	c.Errors = errs
 	// the context is recycled, values from a previous execution must not be visible in this one
 	clear(c.m)
+	c.SourceTag = nil
 	return c
 }
 
@@ -54,6 +55,8 @@ type ExecCtx struct {
 	Fmter  IssueFmtFunc
 	Errors ZogIssues
 	m      map[string]any
+	// source specific struct tag (json, form, query, env...) of the data provider this execution reads from. Nil if it has none
+	SourceTag *string
 }
 
 func (c *ExecCtx) HasErrored() bool {
